@@ -11,6 +11,7 @@ import (
 	"strings"
 
 	mnsx "verif/internal/model/nsx"
+	mpan "verif/internal/model/panos"
 	"verif/internal/run"
 	"verif/internal/sim"
 )
@@ -63,6 +64,61 @@ func runConvLiveNSX(env *run.Env, g *genCase) *convOutcome {
 		return o
 	}
 	if c := nsxEquiv(store, target); c != nil {
+		o.Conv = &clause{"not-converged:" + c.Name, c.What}
+	}
+	return o
+}
+
+// runConvLivePANOS: complete live approve against the XML API simulator
+// backed by the PAN-OS model (candidate config, partial commit).
+func runConvLivePANOS(env *run.Env, g *genCase) *convOutcome {
+	dev := g.model.(*mpan.Device).Clone()
+	tgt := g.target.(*mpan.Device)
+	managed := map[string]bool{}
+	for _, n := range tgt.VsysNames() {
+		managed[n] = true
+	}
+	before := dev.OutsideVsys(managed)
+	be := &mpan.Backend{D: dev}
+	lc := &liveCase{Type: "panos", DevName: "router", Files: g.Files, FrontEnd: "drc"}
+	lc.HTTP = &sim.HTTPSpec{Type: "panos",
+		Members: []sim.HTTPMember{{User: "admin", Password: "secret", Key: "LUFRPT1key0123456789abcdef==", Hostname: "router"}},
+		Panos:   be}
+	lr := lc.run(env)
+	defer lr.cleanup()
+	o := &convOutcome{}
+	for _, e := range lr.changeEvents() {
+		o.Commands = append(o.Commands, e.Raw)
+	}
+	o.Nontrivial = len(o.Commands) > 0
+	if isCrash(lr.Res) {
+		o.Crashed = true
+		o.Conv = &clause{"crash:" + topRepoFrame(lr.Res.Stderr) + ":" + panicClass(lr.Res.Stderr), "tool died in a live approve of a valid pair: " + firstLines(lr.Res.Stderr, 3)}
+		return o
+	}
+	if now := dev.OutsideVsys(managed); now != before {
+		o.Frame = &clause{"outside-vsys-changed", "live approve changed configuration outside the targeted vsys: " + firstDiffLine(now, before)}
+	}
+	if len(be.Rejected) > 0 {
+		rule := "rejected"
+		for _, x := range strings.Fields(be.Rejected[0]) {
+			if strings.HasPrefix(x, "rejected:") {
+				rule = x
+			}
+		}
+		o.Exec = &clause{rule, "live request refused: " + be.Rejected[0]}
+		o.ExecStep = len(o.Commands)
+		return o
+	}
+	if lr.Res.Exit != 0 {
+		o.Conv = &clause{"rejected:" + errorShape(lr.Res.Stderr), fmt.Sprintf("live approve of a valid pair failed with exit %d: %s", lr.Res.Exit, firstLines(lr.Res.Stderr, 3))}
+		return o
+	}
+	if o.Nontrivial && be.Commits == 0 {
+		o.Conv = &clause{"not-committed", "changes were sent but never committed"}
+		return o
+	}
+	if c := panosEquiv(dev, tgt); c != nil {
 		o.Conv = &clause{"not-converged:" + c.Name, c.What}
 	}
 	return o
